@@ -5,6 +5,7 @@ from ..astx import (calls_in, dotted, norm, src, iter_nodes, assigned_targets, a
                     const_value, is_const, parent_chain)
 from ..lib import (call_arg, relation, truth, other, cmp_views, core, holds_region, conditions, found_test, found_tests, path_tests, entails_empty, paths_entail_empty, eval_conditions, relation_tests, atom_key, expand_condition, mode_mismatch_conditions, cfg_nodes_with_call, node_calls, returns, raises, stmt_assigns_attr, callee_last,
                    is_name, node_roots, guard_region, compare_parts, find_test_nodes)
+from ..lib import *      # noqa: F401,F403  (path-condition helpers)
 from ..linear import ctext, lin, Lin, slice_bounds
 from ..loader import AnalysisError
 from .. import stores
@@ -85,7 +86,10 @@ def run(R):
         g = cp.cfg
         loops = [n for n in iter_nodes(cp.node) if isinstance(n, ast.While)]
         c.need(len(loops) == 1, '__interact_copy: loop not found')
-        c.check(norm(loops[0].test) == 'self.isalive()', cp, loops[0], 'the loop runs while the child is alive', witness=norm(loops[0].test), kind='ast', tag='while-alive')
+        firsts = [n for n, k in cfg_nodes_with_call(cp, lambda k: callee_last(k) in ('select_ignore_interrupts', 'poll_ignore_interrupts', '_spawn__interact_wait_readable', '__interact_wait_readable'))]
+        c.need(firsts, '__interact_copy: the readiness wait was not found')
+        okl = all(('self.isalive()', True) in loop_entry_conditions(g, n) for n in firsts)
+        c.check(okl, cp, loops[0], 'the loop runs while the child is alive (every iteration starts with a liveness check)', kind='path', tag='while-alive')
         hs = [h for h in iter_nodes(cp.node) if isinstance(h, ast.ExceptHandler)]
         c.need(len(hs) == 1, 'expected one handler')
         h = hs[0]
@@ -165,12 +169,19 @@ def check_copy(c, cp, wr):
         okc = len(adv) == 1 and slice_bounds(adv[0].value) is not None and is_name(adv[0].value.value, dv) and \
             is_name(slice_bounds(adv[0].value)[0], nv) and slice_bounds(adv[0].value)[1] is None
         c.check(okc, wr, adv[0] if adv else loops[0], 'exactly the n written bytes are dropped: data = data[n:]', witness=norm(adv[0]) if adv else '', kind='alg', tag='writen-advance')
-    t = norm(loops[0].test)
-    tv = loops[0].test
-    okw = isinstance(tv, ast.BoolOp) and isinstance(tv.op, ast.And) and sorted(norm(x) for x in tv.values) in (
-        sorted(["%s != b''" % dv, 'self.isalive()']), sorted([dv, 'self.isalive()']))
+    # every write happens with data left and a live child; the loop is left only when the data is used up or the child died
+    wn = gw.node_for(wk[0]) if wk else None
+    cs = loop_entry_conditions(gw, wn) if wn is not None else set()
+    okw = wn is not None and known_nonempty(cs, dv) and ('self.isalive()', True) in cs
+    hdr = gw.node_of_stmt(loops[0])
+    for t_ in gw.nodes:
+        if t_.kind == 'test' and t_.ast is not None and any(p is loops[0] for p in parent_chain(t_.stmt) if t_.stmt is not None):
+            for s_, l_ in t_.succ:
+                if s_.kind == 'stmt' and isinstance(s_.ast, (ast.Break, ast.Return)) and l_ in ('true', 'false'):
+                    ex = expand_condition(t_.ast, l_ == 'true')
+                    okw = okw and (ex == {('self.isalive()', False)} or known_nonempty(set((a, not v) for a, v in ex), dv))
     c.check(okw, wr, loops[0],
-            'the loop continues until everything is written (or the child died)', witness=t, kind='ast', tag='writen-until-empty')
+            'the loop continues until everything is written (or the child died)', witness='write reached under %s' % sorted(cs), kind='path', tag='writen-until-empty')
 
 
 def check_only_filter(c, cp, g, readnode, sink, v, filt, tag):
